@@ -4,7 +4,7 @@ claim("C16",
       "abstract interpretation + polyhedra entailment of position obligations (R-NORM/R-WRAP/R-CAUSAL/R-NONE)",
       "DESIGN.md §4 C16, §3 position rules")
 claim("C01",
-      "Decides the structural preconditions of the batch==incremental induction for all indicators and inputs: reads of _calculate_reading(t) lie in [0,t] and writes hit index t of own series (abstract interpretation + polyhedra entailment), formula code keeps no state on the object, the sweep starts at a sound resume index and skips present readings, sub-indicators run before/after the parent, append = manager tasks then calculate, merge restores raw values and wipes the bucket. Equality of readings on collapsing timeframes also needs the collapse walk invariant (C03), which is not decided.",
+      "Decides the structural preconditions of the batch==incremental induction for all indicators and inputs: reads of _calculate_reading(t) lie in [0,t] and writes hit index t of own series (abstract interpretation + polyhedra entailment), formula code keeps no state on the object, the sweep starts at a sound resume index and skips present readings, sub-indicators run before/after the parent, append = manager tasks then calculate, every path through CandleManager.append extends the list and runs _tasks() (no fast path), Candle.merge is reachable from the bucket walk only, merge restores raw values and wipes the bucket. Equality of readings on collapsing timeframes also rests on the collapse walk invariant, decided under C03.",
       "Assumes no trimming and input contiguity for the inductive warm-up bound; the collapsed candle list's schedule independence is not decided. Trusted: hexlint engine.",
       "abstract interpretation (position obligations) + syntax-directed ordering/typestate rules",
       "DESIGN.md §4 C01")
@@ -44,12 +44,12 @@ claim("C08",
       "table agreement + syntax-directed binding/alias/ownership rules",
       "DESIGN.md §4 C08")
 claim("C13",
-      "Non-interference follows from name discipline, decided for every shipped class and depth: helper names in the composition closure are extensions of the owner's name (R-NS), formulas write only their own series at the evaluated index (R-WRITE), only the owners write candle data and reading dicts (R-OWN), purge hands the manager only own names and the manager removes exactly those (R-PURGE, R-PURGE-EXACT), Hexital selects by name equality (R-SELECT). The resolver's lookup order is a recorded known finding (adversarial override names).",
+      "Non-interference follows from name discipline, decided for every shipped class and depth: helper names in the composition closure are extensions of the owner's name (R-NS), formulas write only their own series at the evaluated index (R-WRITE), only the owners write candle data and reading dicts (R-OWN), purge hands the manager only own names and the manager removes exactly those (R-PURGE, R-PURGE-EXACT), Hexital selects by name equality (R-SELECT), and a shared timeframe manager is configured from the Hexital, never from the indicator that happens to create it (R-BIND). The resolver's lookup order is a recorded known finding (adversarial override names).",
       "Assumes top-level names are distinct and do not equal another indicator's helper name (otherwise known finding R-LOOKUP).",
       "symbolic evaluation of _initialise (composition graph) + namespace/ownership rules",
       "DESIGN.md §4 C13")
 claim("C14",
-      "Decides: purge's name set is the transitive closure of helper names, computed statelessly, and the manager removes exactly it; recalculate = purge;calculate; calculate is idempotent (skip-present sweep from a sound resume index); calculate_index normalises negative indices before use and moves the managed helpers' cursor; the candle_manager setter reaches every helper; Hexital operations select by exact name. Convergence after arbitrary operation sequences is not decided.",
+      "Decides: purge's name set is the transitive closure of helper names, computed statelessly, and the manager removes exactly it; recalculate = purge;calculate; calculate is idempotent (skip-present sweep from a sound resume index); calculate_index normalises negative indices before use and moves the managed helpers' cursor; the candle_manager setter reaches every helper; Hexital operations select by exact name; every append reaches every manager and every indicator (manager.append -> tasks -> calculate on all paths). Convergence after arbitrary operation sequences is not decided.",
       "Operation-sequence convergence quantifies over run-time histories and is not decided.",
       "abstract evaluation of the purge name set + syntax-directed normalisation/ordering rules",
       "DESIGN.md §4 C14")
@@ -69,13 +69,13 @@ claim("C12",
       "syntax-directed slot/cursor rules + value-number comparison of the gap test + must-pass-through",
       "DESIGN.md §4 C12")
 claim("C15",
-      "Decides that trim pops only from the front while oldest < newest - lifespan (strict, raw timestamps; value-number comparison of the loop test), runs last of the three tasks on construction and every append, and that no formula lets the absolute candle position enter a value (so front pops shift indices uniformly). Equality of retained readings with an untrimmed twin is not decided.",
+      "Decides that trim pops only from the front while oldest < newest - lifespan (strict, raw timestamps; value-number comparison of the loop test) and that this timestamp-tested pop is the only way a candle leaves the list, runs last of the three tasks on construction and every append, and that no formula lets the absolute candle position enter a value (so front pops shift indices uniformly), and that the driver resumes from the last reading present and skips present readings (R-RESUME/R-SKIP/R-SWEEP). Equality of retained readings with an untrimmed twin is not decided.",
       "Retained readings vs an untrimmed twin depends on run-time window contents and is not decided.",
       "value numbering of the trim predicate + ordering rule + position-taint analysis",
       "DESIGN.md §4 C15")
 _VN_TEXT = ("For every class of the group the helper wiring and every guarded return path of _calculate_reading are lowered to a polynomial/Herbrand normal form and shown equal to a reference definition "
             "transcribed from the property statement (same guards, equal values as rational functions, equal managed-series state). This decides 'the formula is the definition' for all inputs and parameters at once - "
-            "a wrong window edge, swapped band, smoothing constant off by one or a changed warm-up guard changes the normal form although it stays inside the test suite's one-significant-digit tolerance. ")
+            "a wrong window edge, swapped band, smoothing constant off by one or a changed warm-up guard changes the normal form although it stays inside the test suite's one-significant-digit tolerance. The helper summaries the formulas are read through (reading_period, candles_sum, accessor wrappers, store helpers, the movement extrema they call) are checked against the helpers' bodies, and both drivers must round with the indicator's own round_value. ")
 claim("C04", _VN_TEXT + "Position independence is decided outright by taint analysis (the absolute index never reaches a value or a branch of a moving average).",
       "Floating-point error 'within rounding' and the range clause beyond the convex-combination shape are not decided; slots the statement leaves open are not compared. The reference definitions (spec/refs.py) are part of the trusted base.",
       "polynomial global value numbering against a definition table + position-taint analysis", "DESIGN.md §4 C04-C06")
@@ -86,7 +86,7 @@ claim("C06", _VN_TEXT,
       "Floating-point error is not decided; VWAP before any volume and TSI with a zero denominator are unspecified slots. Reference definitions are trusted.",
       "polynomial global value numbering against a definition table", "DESIGN.md §4 C04-C06")
 claim("C10",
-      "Decides, for every input, the invariants that are visible in the normal forms: linear identities between output fields (zero-polynomial differences), band ordering by sign analysis with inductive helper summaries, Donchian window agreement and enclosure, TR/ATR/STDEV non-negativity, the finite output domains of Supertrend/OBV/Counter by per-path case analysis, RSI and Aroon ranges by sign/interval analysis of the normal form, and rounding as a post-dominator of every formula in both drivers. 'Averages within their inputs' is reduced to equality with the convex-combination definitions plus the convexity lemma.",
+      "Decides, for every input, the invariants that are visible in the normal forms: linear identities between output fields (zero-polynomial differences), band ordering by sign analysis with inductive helper summaries, Donchian window agreement and enclosure, TR/ATR/STDEV non-negativity, the finite output domains of Supertrend/OBV/Counter by per-path case analysis, RSI and Aroon ranges by sign/interval analysis of the normal form, rounding as a post-dominator of every formula in both drivers, and that a merge into a timeframe bucket unconditionally wipes the bucket's readings (so the invariants relate to the merged candle). 'Averages within their inputs' is reduced to equality with the convex-combination definitions plus the convexity lemma.",
       "Not decided: [0,100] for STOCH and ADX, [-100,100] for TSI (relational facts between run-time series). Assumes well-formed candles, multiplier > 0, 0 < smoothing <= period+1; induction hypothesis on previous own readings.",
       "value numbering (R-AFFINE) + sign/interval domain (R-SIGN/R-INTERVALS) + finite-domain case analysis (R-FINITE) + ordering rule (R-ROUND)",
       "DESIGN.md §4 C10")
